@@ -305,7 +305,7 @@ def replay(w):
     kind = w.get('kind')
     if kind == 'cycle_stat':
         cv = np.array(w['cv'], dtype=int)
-        vals = np.array(w['vals'], dtype=float)
+        vals = np.array(w['vals'], dtype={'int': int, 'bool': bool}.get(w.get('dtype'), float))      # value vectors of any dtype (counts, masks)
         f = FUNCS[w['func']]
         K = cv.max() + 1
         exp = np.array([float(f(vals[cv == c])) for c in range(K)])
@@ -381,6 +381,19 @@ def refute(tier, seed, emit):
             ok, msg = replay(w)
             if ok:
                 emit.violation('stat-is-func-of-exactly-the-labelled-samples', w, msg)
+        if emit.full:
+            return
+    # integer- and boolean-typed value vectors (counts, sample indices, masks): the statistic is still func of the cycle's samples
+    ml3 = 5 if tier == 'quick' else 7
+    emit.scope('every label vector of length <= %d x integer-typed and boolean-typed value vectors x reducers {mean, max, sum}' % ml3, exhaustive=True)
+    for cv in label_vectors(ml3):
+        for dt, vals in (('int', [int((7 * i + 3) % 5) for i in range(len(cv))]), ('bool', [bool((i * 5 + 1) % 3) for i in range(len(cv))])):
+            for fn in ('mean', 'max', 'sum'):
+                emit.case(('dtype', cv, dt, fn), nontrivial=fn == 'mean', contract='get_cycle_stat')
+                w = {'kind': 'cycle_stat', 'cv': list(cv), 'vals': vals, 'func': fn, 'dtype': dt}
+                ok, msg = replay(w)
+                if ok:
+                    emit.violation('stat-is-func-of-exactly-the-labelled-samples:%s-values' % dt, w, msg)
         if emit.full:
             return
     # arbitrary (also non-contiguous / interleaved) labellings
